@@ -256,76 +256,8 @@ func (e *engine) sectionKeys(pool *kslib.Pool, seed uint64) {
 	ctorSeen := map[string]bool{}
 	for i, pk := range pool.Keys {
 		for _, pt := range keyVariants(pk) {
-			pt := pt
-			vtok := " variant=" + variantName(pt)
-			root, err := parseKey(pk.KD, pt)
-			if err != nil {
-				e.skip("key-object["+pk.Name+"/"+variantName(pt)+"]", err.Error())
-				continue
-			}
-			probe := keyProbe(pool, i, pt)
-			obs := func(k, twin key.Key) string {
-				s := objObs(k, twin)
-				if probe != nil {
-					s += "|" + probe(k)
-				}
-				return s
-			}
-			// ---- accessors
-			for _, lf := range accessors(root) {
-				lf := lf
-				accSeen[lf.api] = true
-				e.o.Count("accessor:" + lf.api)
-				e.run(spec{api: lf.api, det: true, extra: "root=" + pk.Name + vtok + " path=" + strings.Join(lf.path, "."),
-					mk: func() (*inst, error) {
-						k, err := parseKey(pk.KD, pt)
-						if err != nil {
-							return nil, err
-						}
-						twin, err := parseKey(pk.KD, pt)
-						if err != nil {
-							return nil, err
-						}
-						return &inst{
-							call:    func([][]byte) ([][]byte, string) { return [][]byte{lf.bytes(k)}, "ok" },
-							observe: func() string { return obs(k, twin) },
-						}, nil
-					}})
-			}
-			// ---- constructors
-			for _, c := range ctorsFor(root) {
-				c := c
-				ctorSeen[c.api] = true
-				e.o.Count("constructor:" + c.api)
-				twin, err := recoverAny(func() (any, error) { return c.build(insVals(c.ins)) })
-				if err != nil {
-					e.skip(c.api+"["+pk.Name+"]", "pristine twin: "+err.Error())
-					continue
-				}
-				e.run(spec{api: c.api, extra: "key=" + pk.Name + vtok, ins: c.ins, once: true, mk: func() (*inst, error) {
-					var obj any
-					return &inst{
-						call: func(ins [][]byte) ([][]byte, string) {
-							var err error
-							obj, err = c.build(ins)
-							return nil, errS(err)
-						},
-						observe: func() string {
-							if obj == nil {
-								return "no-object"
-							}
-							s := objObs(obj, twin)
-							if k, ok := obj.(key.Key); ok {
-								s += "|" + handleOfHex(k)
-								if probe != nil && c.sameKey {
-									s += "|" + probe(k)
-								}
-							}
-							return s
-						},
-					}, nil
-				}})
-			}
+			i, pk, pt := i, pk, pt
+			e.safe("key objects of "+pk.Name, func() { e.keyObject(pool, i, pk, pt, accSeen, ctorSeen) })
 		}
 	}
 	// secretdata
@@ -358,6 +290,81 @@ func (e *engine) sectionKeys(pool *kslib.Pool, seed uint64) {
 	}
 	e.o.Hist["accessors-covered"] = len(accSeen)
 	e.o.Hist["constructors-covered"] = len(ctorSeen)
+}
+
+// keyObject: accessors and constructors of one pool key under one output prefix variant.
+func (e *engine) keyObject(pool *kslib.Pool, i int, pk *kslib.PoolKey, pt tinkpb.OutputPrefixType, accSeen, ctorSeen map[string]bool) {
+	func() {
+		vtok := " variant=" + variantName(pt)
+		root, err := parseKey(pk.KD, pt)
+		if err != nil {
+			e.skip("key-object["+pk.Name+"/"+variantName(pt)+"]", err.Error())
+			return
+		}
+		probe := keyProbe(pool, i, pt)
+		obs := func(k, twin key.Key) string {
+			s := objObs(k, twin)
+			if probe != nil {
+				s += "|" + probe(k)
+			}
+			return s
+		}
+		// ---- accessors
+		for _, lf := range accessors(root) {
+			lf := lf
+			accSeen[lf.api] = true
+			e.o.Count("accessor:" + lf.api)
+			e.run(spec{api: lf.api, det: true, extra: "root=" + pk.Name + vtok + " path=" + strings.Join(lf.path, "."),
+				mk: func() (*inst, error) {
+					k, err := parseKey(pk.KD, pt)
+					if err != nil {
+						return nil, err
+					}
+					twin, err := parseKey(pk.KD, pt)
+					if err != nil {
+						return nil, err
+					}
+					return &inst{
+						call:    func([][]byte) ([][]byte, string) { return [][]byte{lf.bytes(k)}, "ok" },
+						observe: func() string { return obs(k, twin) },
+					}, nil
+				}})
+		}
+		// ---- constructors
+		for _, c := range ctorsFor(root) {
+			c := c
+			ctorSeen[c.api] = true
+			e.o.Count("constructor:" + c.api)
+			twin, err := recoverAny(func() (any, error) { return c.build(insVals(c.ins)) })
+			if err != nil {
+				e.skip(c.api+"["+pk.Name+"]", "pristine twin: "+err.Error())
+				continue
+			}
+			e.run(spec{api: c.api, extra: "key=" + pk.Name + vtok, ins: c.ins, once: true, mk: func() (*inst, error) {
+				var obj any
+				return &inst{
+					call: func(ins [][]byte) ([][]byte, string) {
+						var err error
+						obj, err = c.build(ins)
+						return nil, errS(err)
+					},
+					observe: func() string {
+						if obj == nil {
+							return "no-object"
+						}
+						s := objObs(obj, twin)
+						if k, ok := obj.(key.Key); ok {
+							s += "|" + handleOfHex(k)
+							if probe != nil && c.sameKey {
+								s += "|" + probe(k)
+							}
+						}
+						return s
+					},
+				}, nil
+			}})
+		}
+	}()
 }
 
 // objCtor is one constructor call that rebuilds (a part of) a key from bytes.
